@@ -349,17 +349,29 @@ Origin_ConnError ==
 \* 200 with a body.  bsz / dsz: encoded body size and decoded size relative to
 \* MaxFetchBytes / MaxDecompressedBytes (-1 = cap-1, 0 = cap, 1 = cap+1);
 \* cl: Content-Length present; enc: "" | "zstd".
-Origin_200(enc, cl, bsz, dsz) ==
+\* fr: how a zstd body is framed (RFC 8878 allows any number of concatenated
+\* frames; dsz is the size of the WHOLE decoded payload):
+\*   "one"          a single frame declaring its content size
+\*   "multi_fcs"    several frames, each declaring its content size (every
+\*                  single frame, the first in particular, is within the cap)
+\*   "multi_nofcs"  several frames, none declaring a content size
+\*   "multi_mixed"  the first frame declares its (within-cap) size, the rest do not
+\* The cap is on the decoded payload, so the framing changes nothing in what
+\* the code decides: decompressZstdCapped reads at most cap+1 bytes of output.
+Framings == {"one", "multi_fcs", "multi_nofcs", "multi_mixed"}
+
+Origin_200(enc, fr, cl, bsz, dsz) ==
     /\ Budget
     /\ part = "fetch" /\ f.pend.k = "request"
-    /\ enc = "" => dsz = bsz              \* identity coding: decoded size = body size (no separate cap applies)
+    /\ enc = "" => (dsz = bsz /\ fr = "one")   \* identity coding: decoded size = body size (no separate cap applies)
+    /\ fr # "one" => bsz = -1                  \* multi-frame bodies vary only the decoded-size dimension
     /\ LET over == bsz = 1 \/ (enc = "zstd" /\ dsz = 1)
            g == [f EXCEPT !.over = over] IN
-       FStep("Origin_200", [enc |-> enc, cl |-> cl, bsz |-> bsz, dsz |-> dsz],
+       FStep("Origin_200", [enc |-> enc, fr |-> fr, cl |-> cl, bsz |-> bsz, dsz |-> dsz],
             IF cl /\ bsz = 1 THEN AttemptFailed(g, "toolarge", {})          \* resp.ContentLength > maxFetchBytes
             ELSE IF bsz = 1 THEN AttemptFailed(g, "toolarge", {})           \* len(data) > maxFetchBytes after LimitReader(max+1)
             ELSE IF enc = "zstd" /\ dsz = 1
-                 THEN AttemptFailed(g, "decompress", Redact(AllParts))      \* decompressZstdCapped
+                 THEN AttemptFailed(g, "decompress", Redact(AllParts))      \* decompressZstdCapped, whatever the framing
             ELSE [g EXCEPT !.pend = PReturn("ok")])                          \* no checksum on this pointer; one data batch
 
 \* 200 whose body breaks off with a read error
@@ -396,7 +408,8 @@ Next ==
     \/ \E tgt \in {"next", "same", "start"}, v \in {"acc", "rej"} : Origin_Redirect(tgt, v)
     \/ Origin_Status
     \/ Origin_ConnError
-    \/ \E enc \in {"", "zstd"}, cl \in BOOLEAN, bsz \in {-1, 0, 1}, dsz \in {-1, 0, 1} : Origin_200(enc, cl, bsz, dsz)
+    \/ \E enc \in {"", "zstd"}, fr \in Framings, cl \in BOOLEAN, bsz \in {-1, 0, 1}, dsz \in {-1, 0, 1} :
+          Origin_200(enc, fr, cl, bsz, dsz)
     \/ Origin_200_BodyError
     \/ Origin_200_BadEncoding
 
